@@ -213,8 +213,9 @@ class Driver:
         return vio
 
     def _pending_len(self):
+        # private diagnostic, used only while it still is a plain byte buffer (a refactor may rename or restructure it)
         buf = getattr(self.sess, "_outgoing_buffer", None)
-        return len(buf) if buf is not None else None
+        return len(buf) if isinstance(buf, (bytes, bytearray)) else None
 
     def _check_emitted(self, drained: bytes, emitted, where, tag):
         vio = []
